@@ -16,6 +16,8 @@ pub struct LinkActor {
     pub script: Vec<(Id, u8)>,
     /// reply to every handed message m with m+100 to its source
     pub echo: bool,
+    /// an echo that keeps no state at all: the handler leaves its state untouched and only sends
+    pub stateless: bool,
     /// a payload this actor's handler ignores (no state change, no output): the link must still
     /// advance past it
     pub ignore: Option<u8>,
@@ -35,6 +37,12 @@ impl Actor for LinkActor {
     }
     fn on_msg(&self, _id: Id, state: &mut Cow<LState>, src: Id, msg: u8, o: &mut Out<Self>) {
         if Some(msg) == self.ignore {
+            return;
+        }
+        if self.stateless {
+            if msg < 100 {
+                o.send(src, msg + 100);
+            }
             return;
         }
         state.to_mut().push((src, msg));
@@ -60,7 +68,7 @@ struct LinkSys {
 
 fn systems(th: bool) -> Vec<LinkSys> {
     let mut v = Vec::new();
-    let quiet = || LinkActor { script: vec![], echo: false, ignore: None };
+    let quiet = || LinkActor { script: vec![], echo: false, stateless: false, ignore: None };
     // every sequence of <= 3 (2) messages over payloads {1,2,3} without repetition, plus repeated payloads
     let max = 3;
     let mut seqs: Vec<Vec<u8>> = vec![vec![1], vec![1, 2], vec![2, 1], vec![1, 1]];
@@ -68,17 +76,20 @@ fn systems(th: bool) -> Vec<LinkSys> {
         seqs.extend(vec![vec![1, 2, 3], vec![3, 1, 2], vec![1, 2, 1], vec![2, 2, 2]]);
     }
     for s in &seqs {
-        v.push(LinkSys { name: format!("one-way {:?}", s), actors: vec![LinkActor { script: s.iter().map(|m| (id(1), *m)).collect(), echo: false, ignore: None }, quiet()] });
+        v.push(LinkSys { name: format!("one-way {:?}", s), actors: vec![LinkActor { script: s.iter().map(|m| (id(1), *m)).collect(), echo: false, stateless: false, ignore: None }, quiet()] });
     }
     // a receiver that ignores payload 9: the remaining messages must still arrive, in order
-    v.push(LinkSys { name: "ignoring receiver [1,9,2]".into(), actors: vec![LinkActor { script: vec![(id(1), 1), (id(1), 9), (id(1), 2)], echo: false, ignore: None }, LinkActor { script: vec![], echo: false, ignore: Some(9) }] });
-    v.push(LinkSys { name: "ignoring receiver [9,1]".into(), actors: vec![LinkActor { script: vec![(id(1), 9), (id(1), 1)], echo: false, ignore: None }, LinkActor { script: vec![], echo: false, ignore: Some(9) }] });
-    v.push(LinkSys { name: "two-way [1,2] / [3,4]".into(), actors: vec![LinkActor { script: vec![(id(1), 1), (id(1), 2)], echo: false, ignore: None }, LinkActor { script: vec![(id(0), 3), (id(0), 4)], echo: false, ignore: None }] });
-    v.push(LinkSys { name: "echo [1,2]".into(), actors: vec![LinkActor { script: vec![(id(1), 1), (id(1), 2)], echo: false, ignore: None }, LinkActor { script: vec![], echo: true, ignore: None }] });
-    v.push(LinkSys { name: "two peers [->1:1, ->2:2, ->1:3]".into(), actors: vec![LinkActor { script: vec![(id(1), 1), (id(2), 2), (id(1), 3)], echo: false, ignore: None }, quiet(), quiet()] });
+    v.push(LinkSys { name: "ignoring receiver [1,9,2]".into(), actors: vec![LinkActor { script: vec![(id(1), 1), (id(1), 9), (id(1), 2)], echo: false, stateless: false, ignore: None }, LinkActor { script: vec![], echo: false, stateless: false, ignore: Some(9) }] });
+    v.push(LinkSys { name: "ignoring receiver [9,1]".into(), actors: vec![LinkActor { script: vec![(id(1), 9), (id(1), 1)], echo: false, stateless: false, ignore: None }, LinkActor { script: vec![], echo: false, stateless: false, ignore: Some(9) }] });
+    v.push(LinkSys { name: "two-way [1,2] / [3,4]".into(), actors: vec![LinkActor { script: vec![(id(1), 1), (id(1), 2)], echo: false, stateless: false, ignore: None }, LinkActor { script: vec![(id(0), 3), (id(0), 4)], echo: false, stateless: false, ignore: None }] });
+    v.push(LinkSys { name: "echo [1,2]".into(), actors: vec![LinkActor { script: vec![(id(1), 1), (id(1), 2)], echo: false, stateless: false, ignore: None }, LinkActor { script: vec![], echo: true, stateless: false, ignore: None }] });
+    // a receiver that keeps no state and only replies: what it was handed shows in what the sender gets back
+    v.push(LinkSys { name: "stateless echo [1,2]".into(), actors: vec![LinkActor { script: vec![(id(1), 1), (id(1), 2)], echo: false, stateless: false, ignore: None }, LinkActor { script: vec![], echo: true, stateless: true, ignore: None }] });
+    v.push(LinkSys { name: "stateless echo [1]".into(), actors: vec![LinkActor { script: vec![(id(1), 1)], echo: false, stateless: false, ignore: None }, LinkActor { script: vec![], echo: true, stateless: true, ignore: None }] });
+    v.push(LinkSys { name: "two peers [->1:1, ->2:2, ->1:3]".into(), actors: vec![LinkActor { script: vec![(id(1), 1), (id(2), 2), (id(1), 3)], echo: false, stateless: false, ignore: None }, quiet(), quiet()] });
     if th {
-        v.push(LinkSys { name: "two peers [->2:1, ->1:2, ->1:3]".into(), actors: vec![LinkActor { script: vec![(id(2), 1), (id(1), 2), (id(1), 3)], echo: false, ignore: None }, quiet(), quiet()] });
-        v.push(LinkSys { name: "echo [1,2,3]".into(), actors: vec![LinkActor { script: vec![(id(1), 1), (id(1), 2), (id(1), 3)], echo: false, ignore: None }, LinkActor { script: vec![], echo: true, ignore: None }] });
+        v.push(LinkSys { name: "two peers [->2:1, ->1:2, ->1:3]".into(), actors: vec![LinkActor { script: vec![(id(2), 1), (id(1), 2), (id(1), 3)], echo: false, stateless: false, ignore: None }, quiet(), quiet()] });
+        v.push(LinkSys { name: "echo [1,2,3]".into(), actors: vec![LinkActor { script: vec![(id(1), 1), (id(1), 2), (id(1), 3)], echo: false, stateless: false, ignore: None }, LinkActor { script: vec![], echo: true, stateless: false, ignore: None }] });
     }
     v
 }
@@ -107,6 +118,36 @@ fn pending(actor: &W, i: usize, st: &SysState) -> Vec<(Id, u64, u8)> {
     v
 }
 
+/// Everything `src`'s inner actor sends to `dst` in a complete run: its script, then the replies to what `dst`'s
+/// script sends it (an echo answers in the order it is handed messages, which is the order they were sent).
+fn expected_full(sys: &LinkSys, src: usize, dst: usize) -> Vec<u8> {
+    let ignored = sys.actors[dst].ignore;
+    let mut v: Vec<u8> = sys.actors[src].script.iter().filter(|(d, m)| *d == id(dst) && Some(*m) != ignored).map(|(_, m)| *m).collect();
+    if sys.actors[src].echo {
+        let ign_src = sys.actors[src].ignore;
+        v.extend(sys.actors[dst].script.iter().filter(|(d, m)| *d == id(src) && Some(*m) != ign_src && *m < 100).map(|(_, m)| *m + 100));
+    }
+    v
+}
+
+/// every flow has been handed over completely
+fn complete(sys: &LinkSys, s: &SysState) -> bool {
+    let n = sys.actors.len();
+    for src in 0..n {
+        for dst in 0..n {
+            if src == dst || sys.actors[dst].stateless {
+                continue;
+            }
+            let want = expected_full(sys, src, dst);
+            let handed: Vec<u8> = s.actor_states[dst].verif_wrapped_state().iter().filter(|(f, _)| *f == id(src)).map(|(_, m)| *m).collect();
+            if handed != want {
+                return false;
+            }
+        }
+    }
+    true
+}
+
 fn is_prefix(a: &[u8], b: &[u8]) -> bool {
     a.len() <= b.len() && a == &b[..a.len()]
 }
@@ -115,8 +156,8 @@ pub fn run_c16(a: &Args, shared: &SharedReport) {
     let th = a.tier == "thorough";
     {
         let mut r = shared.lock().unwrap();
-        r.rule = "every reachable state (explicit search, de-duplicated on the state's own Hash/Eq) of every link-wrapped system in the family over lossy duplicating and non-duplicating unordered networks within the network-size boundary; invariants: handed-over sequence is a prefix of the sent sequence, nothing is acknowledged before it was handed over, all acknowledged => sequences equal; non-trivial = at least one message was handed over or dropped".into();
-        r.bounds = json!({"messages_per_flow": "<=3", "network_boundary": if th {"len <= 6"} else {"len <= 5"}, "systems": "one-way scripts (distinct and repeated payloads), two-way, echo, one sender to two peers", "networks": ["unordered duplicating lossy", "unordered non-duplicating lossy"]});
+        r.rule = "every reachable state (explicit search, de-duplicated on the state's own Hash/Eq) of every link-wrapped system in the family over lossy duplicating and non-duplicating unordered networks within the network-size boundary; invariants: handed-over sequence is a prefix of the sent sequence, nothing is acknowledged before it was handed over, all acknowledged => sequences equal, and from every reachable state a state with every flow handed over completely is still reachable; non-trivial = at least one message was handed over or dropped".into();
+        r.bounds = json!({"messages_per_flow": "<=3", "network_boundary": if th {"len <= 6"} else {"len <= 5"}, "systems": "one-way scripts (distinct and repeated payloads), two-way, echo, stateless echo (replies without touching its state), one sender to two peers", "networks": ["unordered duplicating lossy", "unordered non-duplicating lossy"]});
     }
     let bound = if th { 6 } else { 5 };
     let mut idx = 0u64;
@@ -141,6 +182,7 @@ pub fn run_c16(a: &Args, shared: &SharedReport) {
                 q.push_back(0usize);
             }
             let mut transitions = 0u64;
+            let mut edges: Vec<(u32, u32)> = Vec::new();
             let cap = if th { 3_000_000usize } else { 600_000usize };
             let mut capped = false;
             let mut viol: Vec<(String, String)> = Vec::new();
@@ -161,6 +203,22 @@ pub fn run_c16(a: &Args, shared: &SharedReport) {
                     let pend = pending(&wrappers[src], src, &s);
                     for dst in 0..n {
                         if src == dst {
+                            continue;
+                        }
+                        if sys.actors[dst].stateless {
+                            continue; // nothing to observe in a stateless receiver; its replies are observed at the sender
+                        }
+                        if sys.actors[src].stateless {
+                            // src keeps no record of what it was handed: what it must have sent follows from the peer's script
+                            let full = expected_full(&sys, src, dst);
+                            let handed: Vec<u8> = s.actor_states[dst].verif_wrapped_state().iter().filter(|(f, _)| *f == id(src)).map(|(_, m)| *m).collect();
+                            if !is_prefix(&handed, &full) {
+                                viol.push(("c16:handed-over-not-a-prefix".into(), format!("{}: actor {dst} was handed {:?} from the stateless echo {src}, which answers {:?}; trace {:?}", sys.name, handed, full, trace(i))));
+                            }
+                            let back = pending(&wrappers[dst], dst, &s);
+                            if pend.iter().all(|(d, _, _)| *d != id(dst)) && back.iter().all(|(d, _, _)| *d != id(src)) && handed != full {
+                                viol.push(("c16:all-acknowledged-but-sequences-differ".into(), format!("{}: neither {dst} nor the stateless echo {src} has anything left to retransmit, but {dst} was handed {:?} of the answers {:?}; trace {:?}", sys.name, handed, full, trace(i))));
+                            }
                             continue;
                         }
                         // what src's inner actor has sent to dst so far, in order
@@ -211,17 +269,53 @@ pub fn run_c16(a: &Args, shared: &SharedReport) {
                         if !Model::within_boundary(&m, &nx) {
                             continue;
                         }
-                        if !index.contains_key(&nx) {
-                            if states.len() >= cap {
-                                capped = true;
-                                continue;
+                        match index.get(&nx) {
+                            Some(&j) => edges.push((i as u32, j as u32)),
+                            None => {
+                                if states.len() >= cap {
+                                    capped = true;
+                                    continue;
+                                }
+                                index.insert(nx.clone(), states.len());
+                                edges.push((i as u32, states.len() as u32));
+                                states.push(nx);
+                                parent.push(Some((i, label)));
+                                q.push_back(states.len() - 1);
                             }
-                            index.insert(nx.clone(), states.len());
-                            states.push(nx);
-                            parent.push(Some((i, label)));
-                            q.push_back(states.len() - 1);
                         }
                     }
+                }
+            }
+            // "exactly once" is also "not zero times": from every reachable state complete delivery must still be
+            // possible (the network may stop dropping, retransmission must then get everything through). Backward
+            // reachability from the states in which every flow has been handed over completely.
+            if !capped && viol.is_empty() {
+                let ns = states.len();
+                let mut radj: Vec<Vec<u32>> = vec![Vec::new(); ns];
+                for (a, b) in &edges {
+                    radj[*b as usize].push(*a);
+                }
+                let mut can: Vec<bool> = states.iter().map(|s| complete(&sys, s)).collect();
+                let mut stack: Vec<usize> = (0..ns).filter(|k| can[*k]).collect();
+                let goals = stack.len();
+                while let Some(k) = stack.pop() {
+                    for p in &radj[k] {
+                        if !can[*p as usize] {
+                            can[*p as usize] = true;
+                            stack.push(*p as usize);
+                        }
+                    }
+                }
+                if let Some(k) = (0..ns).find(|k| !can[*k]) {
+                    let mut t = Vec::new();
+                    let mut kk = k;
+                    while let Some((p, a)) = &parent[kk] {
+                        t.push(a.clone());
+                        kk = *p;
+                    }
+                    t.reverse();
+                    let stuck = (0..ns).filter(|k| !can[*k]).count();
+                    viol.push(("c16:delivery-no-longer-possible".into(), format!("{}: {stuck} reachable states ({goals} complete ones exist) have no continuation in which every message is handed over; e.g. after {:?}: network {:?}, timers {:?}", sys.name, t, states[k].network, states[k].timers_set)));
                 }
             }
             let mut r = shared.lock().unwrap();
